@@ -3,12 +3,13 @@ Ties: T1 (skeletons of the scheduling / context-switch / life-cycle functions), 
 programs validated against Model.Sched), scenario monitors + deadlock detection for the failing-input search."""
 from checks import sched_common as S
 
-ASSUMPTIONS = list(S.BASE_ASSUMPTIONS)
+ASSUMPTIONS = list(S.BASE_ASSUMPTIONS) + [
+    "Model.Join covers one joiner per target (the API's contract), ULT joiners and the futex path of non-ULT joiners; the scenarios exercise ULT joiners (parents and the primary ULT) on the same and on other streams, joins issued before, during and after termination, and cancelled targets"]
 EXTRA_T1 = [('thread.c', 'ABT_thread_join'), ('thread.c', 'ABT_thread_free'), ('thread.c', 'ABT_thread_join_many'), ('thread.c', 'ABT_thread_free_many'), ('arch/abtd_futex.c', 'ABTD_futex_suspend'), ('arch/abtd_futex.c', 'ABTD_futex_resume')]
 
 
 def run(res, tier, broken):
-    S.run_sched(res, tier, broken, "C03", EXTRA_T1)
+    S.run_sched(res, tier, broken, "C03", EXTRA_T1, validate_fn=S.validate_with_join)
 
 
 def replay(res, path):
